@@ -82,6 +82,10 @@ def run(chk, program, tier):
     from .c16 import _Sub as _Sub0
     chk.rule('ID-PARSE', 'parse(build(x)) = x per bit (C05)'); chk.rule('ID-BUILD', 'build(parse(id)) = id (C05)')
     c05.id_use(chk, program)
+    # a message sent twice over one stream is received twice: the reassembly record does not outlive its message (C03 / C04 clauses)
+    from .. import rules_reasm as RR_
+    chk.rule('RA-DONE', 'the reassembly record is removed on completion (C04)'); chk.rule('RA-RESET', 'a fresh sequence counter restarts the record completely (C04)')
+    RR_.decide(chk, program, tier, ['RA-DONE', 'RA-RESET'])
     try:
         c05._run(_Sub0(chk, {'ID-PARSE', 'ID-BUILD'}), program, tier)
     except (B.Top, B.NeedBranch, AnalysisError) as t:
